@@ -79,15 +79,16 @@ ALLOC_CAP = 4 << 20  # never ask R to allocate more than this in one reassembly 
 
 
 def floors(tier):
+    # ~10 % of what a complete quick run reaches
     return {
-        "o1_frames_classified": 2000,
-        "o1_must_accept_checked": 1000,
+        "o1_frames_classified": 10000,
+        "o1_must_accept_checked": 5000,
         "o1_must_reject_checked": 100,
-        "o1_at_limit_accepted": 50,
-        "o1_r_limit_raises_seen": 50,
-        "o2_measurements": 100,
-        "o2_flood_frames": 10000,
-        "o2_walks": 10,
+        "o1_at_limit_accepted": 1000,
+        "o1_r_limit_raises_seen": 2000,
+        "o2_measurements": 50,
+        "o2_flood_frames": 5000,
+        "o2_walks": 2,
     }
 
 
